@@ -6,16 +6,16 @@
      bezier.py  bezier_by_line_intersections, bezier_intersections (BPair worklist,
                 ApproxSolutionSet, the remove-while-iterating loop), box_area,
                 interval_intersection_width, boxes_intersect, halve_bezier (Model/Bezier.v)
-     polytools.py  polyroots / polyroots01 (np.roots is an ORACLE; the
-                de-duplication uses the index of the PAIR as the index of a ROOT —
-                modelled as coded)
+     polytools.py  polyroots / polyroots01 (np.roots is an ORACLE; de-duplication:
+                pinned variant = index of the PAIR used as index of a ROOT, repaired
+                variant = index-correct; Model/BezierN.v, selected by a flag)
 
    plus the exact root counting (Sturm / Tarski query over a decidable field)
    the C12 harness uses to decide the true number of Line–Bezier crossings.
 
    Everything mirrors what the code DOES.  Numeric carrier: any [Num K]. *)
 From Coq Require Import ZArith List Bool Arith Lia.
-From SVP Require Import Base.Num Base.Cplx Base.Poly Model.Bezier.
+From SVP Require Import Base.Num Base.Cplx Base.Poly Model.Bezier Model.BezierN.
 Import ListNotations.
 Set Implicit Arguments.
 
@@ -152,30 +152,17 @@ Section Isect.
 
   (* ---------------------------------------------------------------- *)
   (** * polytools.polyroots / polyroots01 around the np.roots oracle *)
-  (* misctools.isclose(a, b): |a-b| < atol + rtol*|b|   (strict, unlike numpy's) *)
-  Definition isclose (rtol atol a b : K) : bool := ltb N (nabs N (a - b)) (atol + rtol * nabs N b).
-
-  (* indices (in itertools.combinations order) of the close pairs *)
-  Fixpoint pairs_of {A} (l : list A) : list (A * A) :=
-    match l with [] => [] | x :: r => map (fun y => (x, y)) r ++ pairs_of r end.
-  Fixpoint close_pair_indices (rtol atol : K) (ps : list (K * K)) (i : nat) : list nat :=
-    match ps with
-    | [] => []
-    | (r1, r2) :: q => if isclose rtol atol r1 r2 then i :: close_pair_indices rtol atol q (S i)
-                       else close_pair_indices rtol atol q (S i)
-    end.
-  Fixpoint drop_indices {A} (dups : list nat) (l : list A) (i : nat) : list A :=
-    match l with
-    | [] => []
-    | x :: r => if existsb (Nat.eqb i) dups then drop_indices dups r (S i) else x :: drop_indices dups r (S i)
-    end.
-  (* as coded: the PAIR index is used as a ROOT index *)
-  Definition dedup_as_coded (rtol atol : K) (roots : list K) : list K :=
-    drop_indices (close_pair_indices rtol atol (pairs_of roots) 0) roots 0.
+  (* the model lives in Model/BezierN.v (C19):  isclose (strict, unlike numpy's),
+     dedup_coded = the PINNED code (the index of a close PAIR in combinations
+     order is used as the index of a ROOT), dedup_fixed = the repair of /repo
+     commit 48a8a6b (root j is dropped when an EARLIER root i<j is close to it).
+     [fixed] selects the variant; the harness detects it from the implementation. *)
+  Definition dedup_as_coded (rtol atol : K) (roots : list K) : list K := dedup_coded N rtol atol roots.
+  Definition dedup (fixed : bool) (rtol atol : K) (roots : list K) : list K :=
+    if fixed then dedup_fixed N rtol atol roots else dedup_coded N rtol atol roots.
   (* polyroots01(p) given np.roots(p) = raw (complex) *)
-  Definition polyroots01_of (rtol atol : K) (raw : list C) : list K :=
-    let reals := map fst (filter (fun r => isclose rtol atol (im r) (zero N)) raw) in
-    dedup_as_coded rtol atol (filter in01 reals).
+  Definition polyroots01_of (fixed : bool) (rtol atol : K) (raw : list C) : list K :=
+    polyroots01 N rtol atol fixed raw.
 
   (* set(roots): distinct values (iteration order of a Python set is not specified;
      results are compared order-insensitively) *)
@@ -307,7 +294,18 @@ Section Isect.
     let t21 := bt2 p - delta in let t22 := bt2 p + delta in
     [mkBP c11 c21 t11 t21; mkBP c11 c22 t11 t22; mkBP c12 c21 t12 t21; mkBP c12 c22 t12 t22].
 
+  (* positions j of l whose pair is related to pr (the repaired redundancy loop) *)
+  Fixpoint related_idx (pr : bpair) (l : list bpair) (j : nat) : list nat :=
+    match l with
+    | [] => []
+    | o :: r => if related pr o then j :: related_idx pr r (S j) else related_idx pr r (S j)
+    end.
+
   Section Machine.
+    (* false = the pinned code: pair_list.remove() inside `for ... in pair_list`;
+       true  = the proposed repair (/tmp/fixes/C12-subdivision-remove-while-iterating.diff):
+               the list is not mutated, redundant pairs are marked and skipped *)
+    Variable rm_fixed : bool.
     Variable bbox : list C -> box.       (* bezier_bounding_box *)
     Variables tol tol_deC : K.
     Variable bez1 : list C.              (* the ORIGINAL first curve: reported points are bez1(t1) *)
@@ -338,8 +336,34 @@ Section Isect.
           end
       end.
 
+    (* repaired loop: `redundant` = positions marked by earlier reported pairs *)
+    Fixpoint level_loop_fixed (fuel : nat) (delta : K) (l : list bpair) (i : nat)
+             (redundant : list nat) (st : lstate) : lstate :=
+      match fuel with
+      | O => st
+      | S f =>
+          match nth_error l i with
+          | None => st
+          | Some pr =>
+              if existsb (Nat.eqb i) redundant then level_loop_fixed f delta l (S i) redundant st
+              else if boxes_ok pr then
+                if small pr then
+                  let point := bezier_point N bez1 (bt1 pr) in
+                  let st' := if approx_mem tol point (ls_seen st) then st
+                             else mkLS (ls_new st) (ls_out st ++ [(bt1 pr, bt2 pr)])
+                                       (ls_seen st ++ [point]) in
+                  level_loop_fixed f delta l (S i) (redundant ++ related_idx pr l 0) st'
+                else
+                  level_loop_fixed f delta l (S i) redundant
+                             (mkLS (ls_new st ++ children delta pr) (ls_out st) (ls_seen st))
+              else level_loop_fixed f delta l (S i) redundant st
+          end
+      end.
+
     Definition level (k : nat) (l : list bpair) (out : list (K * K)) (seen : list C) : lstate :=
-      level_loop (length l) (npow N half (k + 2)) l 0 (mkLS [] out seen).
+      if rm_fixed
+      then level_loop_fixed (length l) (npow N half (k + 2)) l 0 [] (mkLS [] out seen)
+      else level_loop (length l) (npow N half (k + 2)) l 0 (mkLS [] out seen).
 
     (* `while pair_list and k < maxits`, n = maxits - k; afterwards
        `if k >= maxits: raise Exception` (also when the list emptied at k = maxits) *)
@@ -427,21 +451,30 @@ Section Isect.
       | _, _ => false
       end.
 
+    (* false = the pinned code: T from path.t2T(seg, t), i.e. list.index(seg), the
+               FIRST EQUAL segment;
+       true  = the proposed repair (/tmp/fixes/C11-path-intersect-index.diff): the
+               loops enumerate the paths and t2T gets the position *)
+    Variable idx_fixed : bool.
+    Definition enum {A} (l : list A) : list (nat * A) := combine (seq 0 (length l)) l.
+    Definition pos_of (p : list (seg K)) (i : nat) (s : seg K) : nat :=
+      if idx_fixed then i else index_of p s.
+
     Definition entries (p1 : list (seg K)) (lens1 : list K) (p2 : list (seg K)) (lens2 : list K)
-               (s1 s2 : seg K) (l : list (K * K)) : list (pent * pent) :=
-      map (fun tt => ((t2T lens1 (index_of p1 s1) (fst tt), s1, fst tt),
-                      (t2T lens2 (index_of p2 s2) (snd tt), s2, snd tt))) l.
+               (is1 js2 : nat * seg K) (l : list (K * K)) : list (pent * pent) :=
+      map (fun tt => ((t2T lens1 (pos_of p1 (fst is1) (snd is1)) (fst tt), snd is1, fst tt),
+                      (t2T lens2 (pos_of p2 (fst js2) (snd js2)) (snd tt), snd js2, snd tt))) l.
 
     (* the double loop; the first exception aborts *)
     Fixpoint collect (p1 : list (seg K)) (lens1 : list K) (p2 : list (seg K)) (lens2 : list K)
-             (pairs : list (seg K * seg K)) : ires (list (pent * pent)) :=
+             (pairs : list ((nat * seg K) * (nat * seg K))) : ires (list (pent * pent)) :=
       match pairs with
       | [] => IOk []
-      | (s1, s2) :: r =>
-          match seg_isect s1 s2 with
+      | (is1, js2) :: r =>
+          match seg_isect (snd is1) (snd js2) with
           | IOk l =>
               match collect p1 lens1 p2 lens2 r with
-              | IOk l' => IOk (entries p1 lens1 p2 lens2 s1 s2 l ++ l')
+              | IOk l' => IOk (entries p1 lens1 p2 lens2 is1 js2 l ++ l')
               | e => e
               end
           | IAssert => IAssert | IValueErr => IValueErr | IException => IException
@@ -462,7 +495,7 @@ Section Isect.
       : ires (list (pent * pent)) :=
       if path_eqb p1 p2 then IAssert
       else
-        match collect p1 lens1 p2 lens2 (list_prod p1 p2) with
+        match collect p1 lens1 p2 lens2 (list_prod (enum p1) (enum p2)) with
         | IOk l => IOk (dedup_joint [] (map (fun e => (seg_point (snd (fst (fst e))) (snd (fst e)), e)) l))
         | e => e
         end.
